@@ -1,6 +1,6 @@
 use super::swift_utils::{
-    format_swift_amount_for_currency, parse_amount_with_currency, parse_currency_non_commodity,
-    parse_exact_length, parse_uppercase,
+    ensure_ascii, format_swift_amount_for_currency, parse_amount_with_currency,
+    parse_currency_non_commodity, parse_exact_length, parse_uppercase,
 };
 use crate::errors::ParseError;
 use crate::traits::SwiftField;
@@ -29,6 +29,7 @@ impl SwiftField for Field71A {
     where
         Self: Sized,
     {
+        ensure_ascii(input, "Field 71")?;
         // Must be exactly 3 characters
         let code = parse_exact_length(input, 3, "Field 71A code")?;
 
@@ -78,6 +79,7 @@ impl SwiftField for Field71F {
     where
         Self: Sized,
     {
+        ensure_ascii(input, "Field 71")?;
         if input.len() < 4 {
             return Err(ParseError::InvalidFormat {
                 message: format!(
@@ -136,6 +138,7 @@ impl SwiftField for Field71G {
     where
         Self: Sized,
     {
+        ensure_ascii(input, "Field 71")?;
         if input.len() < 4 {
             return Err(ParseError::InvalidFormat {
                 message: format!(
@@ -194,6 +197,7 @@ impl SwiftField for Field71B {
     where
         Self: Sized,
     {
+        ensure_ascii(input, "Field 71")?;
         use super::field_utils::parse_multiline_text;
 
         // Parse as multiline text (up to 6 lines, 35 chars each)
